@@ -12,9 +12,11 @@ if ! git apply --check $DST/patch.diff 2>/dev/null; then echo "SEED $ID: patch d
 D0=$(mktemp -d); D1=$(mktemp -d)
 python3 /verif/engine/overlay.py $D0 >/dev/null
 (cd /tmp && PYTHONPATH=$D0 timeout 900 /venv/bin/python $DST/demo.py >$DST/demo.base.out 2>&1); B=$?
+if grep -q "^FAIL" $DST/demo.base.out; then B=1; fi
 git apply $DST/patch.diff
 python3 /verif/engine/overlay.py $D1 >/dev/null
 (cd /tmp && PYTHONPATH=$D1 timeout 900 /venv/bin/python $DST/demo.py >$DST/demo.patched.out 2>&1); P=$?
+if grep -q "^FAIL" $DST/demo.patched.out; then P=1; fi
 (cd /repo && PYTHONPATH=$D1 /venv/bin/python -m pytest -q -p no:cacheprovider --timeout=900 tests 2>&1 | grep -E "^[.sFEx]+ " | tail -1 > $DST/suite.patched.out)
 rm -rf $D0 $D1
 echo "SEED $ID: demo base exit=$B patched exit=$P suite: $(cat $DST/suite.patched.out)"
